@@ -245,14 +245,14 @@ def _cmp_one(op, a, b):
             return a > b
         if op == '>=':
             return a >= b
-        if op == 'in':
+        if op in ('in', 'not in'):
             if isinstance(a, str) and isinstance(b, str):
-                return ascii_fold(a) in ascii_fold(b)
-            return a in b
-        if op == 'not in':
-            if isinstance(a, str) and isinstance(b, str):
-                return ascii_fold(a) not in ascii_fold(b)
-            return a not in b
+                r = ascii_fold(a) in ascii_fold(b)
+            else:
+                r = a in b
+                if isinstance(a, str) and isinstance(b, (list, tuple)) and r != (ascii_fold(a) in [ascii_fold(x) for x in b if isinstance(x, str)]):
+                    raise Unspecified('letter case in list membership')
+            return r if op == 'in' else not r
     except TypeError as ex:
         raise RefErr(str(ex))
     raise RefErr(op)
@@ -664,7 +664,7 @@ def str_expr(draw, depth=2, loopvar=None, fields=True):
         v = draw(st.sampled_from(['r', 'o', 'R']))
         return ['nextgen', ['attr', v, 'item'], v, ['name', draw(st.sampled_from(['orders', 'receipts', 'Orders']))],
                 draw(st.one_of(st.none(), bool_expr(depth - 1, v.lower(), fields))),
-                draw(st.sampled_from([['str', 'none'], ['str', '']]))]
+                draw(st.sampled_from([['str', 'none'], ['str', ''], None]))]
     return draw(str_atoms(fields, loopvar))
 
 
@@ -695,7 +695,11 @@ def num_expr(draw, depth=2, loopvar=None, fields=True):
         if choice == 9:
             return ['sumgen', draw(num_expr(depth - 1, v.lower(), fields)), v, src, cond]
         if choice == 10:
+            if draw(st.booleans()):
+                return [draw(st.sampled_from(['minl', 'maxl'])), ['listcomp', ['attr', v, 'amount'], v, src, cond]]
             return ['len', ['listcomp', ['name', v], v, src, cond]]
+        if draw(st.integers(0, 2)) == 0:
+            return ['nextgen', ['attr', v, 'amount'], v, src, cond, draw(st.one_of(st.none(), st.just(['num', 0])))]
         return ['len', ['listcomp', ['attr', v, 'item'], v, src, cond]]
     return draw(num_atoms(loopvar))
 
@@ -726,6 +730,15 @@ def bool_atom(draw, depth, loopvar, fields):
         return ['cmp', first, [list(l) for l in links]]
     if c == 7:
         op = draw(st.sampled_from(['==', '!=', 'in', 'not in', '==']))
+        k7 = draw(st.integers(0, 5))
+        if k7 == 0:
+            return ['meth', draw(s0()), draw(st.sampled_from(['startswith', 'endswith', 'StartsWith'])), [['str', draw(st.one_of(pattern_text, word))]]]
+        if k7 == 1 and loopvar is None:
+            v = draw(st.sampled_from(['r', 'o']))
+            src = ['name', draw(st.sampled_from(['orders', 'receipts']))]
+            if draw(st.booleans()):
+                return ['cmp', draw(st.sampled_from([['txn', 'amount'], ['name', 'amount'], ['num', 9.99]])), [[draw(st.sampled_from(['in', 'not in'])), ['listcomp', ['attr', v, 'amount'], v, src, None]]]]
+            return ['cmp', draw(st.one_of(s0(), st.sampled_from(ROW_ITEMS).map(lambda x: ['str', x]))), [[draw(st.sampled_from(['in', 'not in'])), ['listcomp', ['attr', v, 'item'], v, src, None]]]]
         return ['cmp', draw(s0()), [[op, draw(s0())]]]
     if c == 8:
         ops = st.sampled_from(['<', '<=', '>', '>=', '==', '!='])
